@@ -12,6 +12,9 @@ ITEM = {
     "cloneChain": (["let c = d.clone().clone();"], 0, ["let _ = c.len() + d.len();"]),
     # the source `d` is never used after the clone
     "cloneLetUnused": (["let c = d.clone();"], 0, ["let _ = c.len();"]),
+    # ... and its name only occurs in a comment, a string and as a field of another value afterwards
+    "cloneLetMentioned": (["let c = d.clone();"], 0, ["// d is not needed below", "let other = Holder { d: c.len() };",
+                                                     "let _ = (\"d was copied\", other.d);"]),
     "blockFs": (["let t = std::fs::read_to_string(p);"], 0, ["let _ = t;"]),
     "blockFsUse": (["let t = fs::read_to_string(p);"], 0, ["let _ = t;"]),
     "blockSleep": (["std::thread::sleep(std::time::Duration::from_secs(2));"], 0, []),
